@@ -150,6 +150,8 @@ DATA = {
     "str": D("'a;b'", "str", "a;b"), "str2": D('"x,""y"', "str", 'x,""y'), "blk": D("#13a;b", "blk", "a;b"),
     "expr": D("(1,2)", "expr", "1,2"), "hex": D("#HFF", "hex", "255"), "numsuf": D("10 V", "numsuf", "10", "V"),
     "oct": D("#Q17", "hex", "15"), "blk0": D("#10", "blk", ""), "dot": D(".5", "num", ".5"), "dot2": D("-.25e3", "num", "-.25e3"),
+    # character data that other layers give a meaning to (<numeric_value> keywords, booleans): plain elements for the dispatcher
+    "def": D("DEFault", "chr", "DEFault"), "max": D("MAX", "chr", "MAX"), "on": D("ON", "chr", "ON"),
 }
 
 
@@ -390,7 +392,8 @@ def run_c06(chk, tier, seed):
     ft = flatten(SMALL)
     cands = cands_for(SMALL, rich=False)
     dl = [[]] + [[k] for k in DATA] + [["num", "str"], ["str", "blk"], ["chr", "hex"], ["expr", "numsuf"], ["blk", "num"], ["str2", "chr"],
-                                       ["num", "chr", "str"], ["blk", "expr", "hex"], ["num", "dot"], ["str", "dot2", "dot"], ["expr", "num"], ["expr", "chr", "str"]]
+                                       ["num", "chr", "str"], ["blk", "expr", "hex"], ["num", "dot"], ["str", "dot2", "dot"], ["expr", "num"], ["expr", "chr", "str"],
+                                       ["num", "def", "num2"], ["def", "max"], ["on", "def"]]
     if th:
         dl += [[a, b] for a in DATA for b in DATA if a != b][:40]
     pulls = [p for n in range(0, 5 if th else 4) for p in itertools.product(["req", "opt"], repeat=n)]
@@ -416,8 +419,8 @@ def c10_units(th):
          U(["Bq"], query=True, h=H(items=("1", "'a;b'", "#13x,y"))),
          U(["GRP"], query=True, h=H(hdr="GRP:Y", items=("42",))),
          U(["*OPC"], query=True, h=H(items=('"q""r"', "-2.5"))),
-         U(["GRP", "X"], query=True, h=H(hdr="X", items=("ON", "OFF"))),
-         U(["Bq"], query=True, h=H(items=("#12x;",))),          # payload ending in the unit separator byte
+         U(["GRP", "X"], query=True, h=H(hdr="LONGHEADERXX:X", items=("ON",))),   # two header() calls: a long first level, a short rest (fits where the first does not)
+         U(["Bq"], query=True, h=H(items=("", "#12x;"))),       # an empty first datum (still separated by ','); payload ending in the unit separator byte
          U(["GRP"], query=True, h=H(items=("#11,", "#11\n"))),   # ... in the data separator / terminator byte
          U(["SENS"], query=True, h=H(items=('-171,"Invalid expression;ext ""one"""', '0,"No error"'))),   # error/event queue items
          U(["SENS", "AC"], query=True, h=H(items=("\x80", "5"))),   # an unformattable datum: the message must fail, not emit ',5'
@@ -451,7 +454,7 @@ def run_c11(chk, tier, seed):
              U(["SENS", "AC"], query=True, h=H(items=('-113,"Undefined header"', '7,"Custom ""dev"" error;x;y"')))]
     defs = [f"Q == {set_of(q)}", f"E == {set_of(e[:1] + [conv])}"]
     k = 3
-    maxlen = 3 * 16 + 4
+    maxlen = 3 * 19 + 4
     run_projection(chk, "C11", "capacity", ft, cands, defs, "Q \\cup E", "Q \\cup E", k, ["", ";"] if not th else ["", "\n", ";"],
                    list(range(0, maxlen + 1)) + [-1], ["--alloc"])
     chk.cov["exhaustive"] = True
